@@ -586,6 +586,9 @@ def parse_body(lines, i, b):
                     while j >= 0 and re.match(r'^_(\d+) = no_retag copy ', stmts[j]):
                         temps.insert(0, int(re.match(r'^_(\d+)', stmts[j]).group(1)))
                         j -= 1
+                    # a temporary that only feeds a later temporary (`_23 = copy ((*_22).3)`) is not a capture itself
+                    temps = [t for t in temps if not any(re.search(r'_%d\b' % t, stmts[q].split(' = ', 1)[1])
+                                                         for q in range(j + 1, k) if ' = ' in stmts[q])]
                     shown = [o.place.local for _, o in st[2].b if o.place is not None and not o.place.proj]
                     names = [nm for nm, _ in st[2].b]
                     missing = [t for t in temps if t not in shown]
